@@ -103,7 +103,7 @@ for name, sig, V, M in HEAD_OPS:
 
 for name, code in [('write_indef_array_start', '0x9f'), ('write_indef_map_start', '0xbf'), ('write_break', '0xff')]:
     UNITS.append(Unit('enc.' + name, (ENC + name, None), contract=fixed_contract(code), prelude=P, setup=PUB_SETUP,
-                      inline=INL, stubs=SINK, props=['C06', 'C10', 'C01', 'C02', 'C13']))
+                      inline=INL, stubs=SINK, props=['C06', 'C10', 'C01', 'C02', 'C13'] + (['C15'] if name == 'write_break' else [])))
 
 # ---------------------------------------------------------------- flush_buffer (also checked on its own)
 FLUSH_C = '''
@@ -118,7 +118,7 @@ __CPROVER_ensures(g_W < g_L0 ==> ENC_LBYTE($this) == g_b0)
 __CPROVER_ensures(g_exc == 0)
 '''
 UNITS.append(Unit('enc.flush_buffer', (ENC + 'flush_buffer', None), contract=FLUSH_C, prelude=P, setup=PUB_SETUP,
-                  stubs=SINK, props=['C06', 'C10', 'C13', 'C01', 'C02']))
+                  stubs=SINK, props=['C06', 'C10', 'C13', 'C01', 'C02', 'C15']))
 
 # ---------------------------------------------------------------- write_string (loop contract, unbounded length)
 STR_REQ = '''
@@ -193,3 +193,37 @@ ASSUMPTIONS = [
     'bytes already accepted by the sink < 2^60; string length < 2^48',
     'virtual dispatch m_cos->write is abstracted to the sink model A1',
 ]
+
+# ---------------------------------------------------------------- end of an output: rotate_output<T>, ~CdnsEncoder (C13, C15, C16)
+ROT_REQ = '''
+__CPROVER_requires(__CPROVER_w_ok($this, sizeof(*$this)))
+__CPROVER_requires(ENC_INV($this))
+__CPROVER_requires(g_exc == 0 && g_sink_len < (1UL << 60) && g_rot == 0 && !g_rot_with_pending && !g_sink_fail)
+__CPROVER_requires(g_L0 == ENC_LLEN($this) && g_b0 == ENC_LBYTE($this))
+__CPROVER_assigns($this->m_p, $this->m_avail, g_sink_len, g_wval, g_rot, g_rot_with_pending, g_sink_fail, g_exc)
+'''
+EROT_C = ROT_REQ + '''
+__CPROVER_ensures(g_exc == 0 || g_exc == EXC_CborOutputException)
+__CPROVER_ensures(!g_rot_with_pending)
+__CPROVER_ensures(g_exc == 0 ==> (g_rot == 1 && ENC_INV($this) && ENC_FILL($this) == 0 && g_sink_len == g_L0))
+__CPROVER_ensures((g_exc == 0 && g_W < g_L0) ==> ENC_LBYTE($this) == g_b0)
+__CPROVER_ensures(g_sink_fail ==> (g_exc != 0 && g_rot == 0))
+__CPROVER_ensures(g_sink_fail ==> (ENC_INV($this) && ENC_LLEN($this) == g_L0 && ENC_LBYTE($this) == g_b0))
+'''
+EDTOR_C = ROT_REQ + '''
+__CPROVER_ensures(g_exc == 0 && g_rot == 0)
+__CPROVER_ensures(!g_sink_fail ==> (ENC_FILL($this) == 0 && g_sink_len == g_L0))
+__CPROVER_ensures((!g_sink_fail && g_W < g_L0) ==> ENC_LBYTE($this) == g_b0)
+'''
+ROT_SETUP = PUB_SETUP + '  g_rot = 0; g_rot_with_pending = 0; g_sink_fail = 0;\n'
+for tag, mn, arg, decl in [('fd', '_ZN4CDNS11CdnsEncoder13rotate_outputIiEEvRKT_', '&a_fd', 'int a_fd;'),
+                           ('string', '_ZN4CDNS11CdnsEncoder13rotate_outputINSt7__cxx1112basic_stringIcSt11char_traitsIcESaIcEEEEEvRKT_', '&a_s', 'cstring a_s;')]:
+    UNITS.append(Unit('enc.rotate_output.' + tag, ('@' + mn, None), contract=EROT_C, prelude='byte_enc_rot.h', opaque={'boost::any': 'struct any'},
+                      setup=ROT_SETUP + '  ' + decl + '\n', args=['&obj', arg], inline=[(ENC + 'flush_buffer', None)],
+                      stubs=SINK + ['BaseCborOutputWriter__rotate_output', 'any__from_\\w+'], props=['C13', 'C15', 'C16', 'C02'],
+                      post='  if (g_exc != 0) { CANARY("failure reachable"); }\n  if (g_sink_fail) { CANARY("rejected write reachable"); }',
+                      note='every byte produced for the old output is handed to the sink before the sink is rotated; buffer empty afterwards; a rejected '
+                           'write propagates, the sink is then not rotated and the buffered bytes are kept'))
+UNITS.append(Unit('enc.dtor', ('@_ZN4CDNS11CdnsEncoderD1Ev', None), contract=EDTOR_C, prelude='byte_enc_rot.h', setup=ROT_SETUP, args=['&obj'],
+                  inline=[(ENC + 'flush_buffer', None)], stubs=SINK, props=['C15', 'C13'],
+                  note='destruction flushes the staging buffer (every produced byte reaches the sink unless the sink rejects it) and never throws'))
